@@ -22,6 +22,8 @@ def run_check(pid, tier, seed):
     run = O.Run(pid, tier, seed)
     O.log("== %s tier=%s seed=%d" % (pid, tier, seed))
     proof = O.audit_proofs(pid)
+    if pid in O.KERNEL_PIDS:
+        proof = O.audit_kernels(proof)
     O.log("  proofs: %d/%d theorems discharged, axioms %s%s" % (proof["discharged"], proof["obligations"], proof["axioms"],
           "" if proof["ok"] else "  PROBLEMS: " + "; ".join(proof["problems"])[:600]))
     if tier == "thorough" and proof["ok"]:
